@@ -5,7 +5,7 @@ _assume = [
     "DescribeNetworkInterfaces ANDs its filters (an interface that is not attached does not match an instance-id filter), addresses are never reused; asynchronous status changes advance per poll, the simulator never sleeps",
     "API server = controller-runtime fake client with types.Scheme, status subresources, the spec.nodeName index and real optimistic-concurrency conflicts (a concurrent writer is interposed by an interceptor)",
     "hard-coded waits in pool.go (3 s after attach, 1 s waitTime) scaled by a line-preserving source transform; the 1 s LastReconcileTime guard is reset and gcPeriod is 0 from in-package harness code; backoff table overridden to microseconds",
-    "clause (iv) 'only while valid and in use' is asserted for bindings created by the pass; a pod re-adopted onto the address it reports is exempt (the statement's second and third sentence conflict for a running pod whose address was marked for deletion)",
+    "clause (iv) 'only while valid and in use' is asserted for bindings created by the pass; a pod re-adopted onto the address it reports is exempt only as far as the address / interface was already scheduled for deletion or not in use before the pass (the statement's second and third sentence conflict for a running pod whose address was marked for deletion earlier); a re-adoption onto an address or interface that this very pass scheduled for deletion is a violation (interfaces detached behind the controller's back excepted, and on EFLO addresses first seen in the pass, whose status the cloud dictates)",
     "clause (iv) for kept bindings: a binding that stays on the same pod, whose pod still exists with a live sandbox, whose address was Valid on an interface not marked Deleting before the pass, and whose interface was attached to the instance in the cloud when the pass started, must not be Deleting (address or interface) after it; marking an interface that was detached behind the controller's back is the allowed reaction to drift",
     "clause (iv) for release requests: an UnAssign request issued in a pass must not name an address that the record the pass started from binds (status Valid, interface not marked Deleting) to a pod that still exists with a live sandbox - marking and releasing within one pass leaves no Deleting entry in the published record to judge",
     "clause (i) is read across consecutive records: an address bound to a pod whose sandbox has not exited must not be rebound to another pod (the record itself can name one owner only)",
@@ -22,7 +22,7 @@ PROPS = {
              "non-trivial = a pass starts with >=2 interfaces holding >=2 idle candidates for >=2 pending pods, or a pod that reports an address is (to be) re-adopted, or a dual-stack pass where an interface has idle IPv4 but no idle IPv6; distinct = distinct scenario hash",
         assumptions=_assume,
         level_text="randomised exploration; every persisted record of every explored history satisfies: one owner per address and no transfer from a live pod, at most one IPv4 and one IPv6 per pod on one interface, "
-                   "fresh bindings only on Valid addresses of InUse interfaces of the right (RDMA / non-RDMA) kind, no pass schedules the address or interface of a kept binding of an existing pod for deletion nor asks the cloud to unassign such an address, re-adoption onto exactly the reported address, bindings only for existing pods served by the node IPAM; not exhaustive",
+                   "fresh bindings only on Valid addresses of InUse interfaces of the right (RDMA / non-RDMA) kind, no pass schedules the address or interface of a kept binding of an existing pod for deletion nor asks the cloud to unassign such an address, re-adoption onto exactly the reported address and never onto something the same pass scheduled for deletion, bindings only for existing pods served by the node IPAM; not exhaustive",
         level_note="map-iteration order inside assignIPFromLocalPool is not controlled (the oracle accepts any valid choice); 'addresses the daemon reads back' is covered through the record only; "
                    "two defects found by this check (IPv4 not following an existing IPv6 binding's interface; roll-back unbinding a pre-existing IPv4) were repaired in /repo, no finding is open",
         tests=[dict(unit="c02node", test="TestVerifC02Assign", quick=80000, thorough=2000000),
